@@ -404,6 +404,50 @@ Theorem C17_one_under_parent_cancel_meets_contract : forall a ms (pre : bool) ev
 Proof. exact exec_ev_one_meets_contract. Qed.
 Print Assumptions C17_one_under_parent_cancel_meets_contract.
 
+(* THE closed-form contract for parent cancellation IS the event model: every API (ExecuteUpTo with
+   any budget, All/Most/Any, ExecuteOne, ExecuteFast, ExecuteRace, Execute with any strategy number),
+   every member count, outcome vector, awareness mix, release order, cancellation point (before the
+   call or at any step) — every field of the result: what is returned (the loop's law on seq_at),
+   who was invoked, the step at which the members' context is cancelled (the earlier of q and the
+   return step), the step at which the call returns (the step of the first response that ends the
+   loop, else the latest return of a member: a flushed member returns at q, any other at its release),
+   which members saw ctx.Done and when (the flushed ones, at q), nothing left running.  Under the
+   guard of generator C17P: every member released exactly once, the parent cancelled exactly once. *)
+Theorem C17_event_model_meets_contract_ev : forall a ms (pre : bool) evs,
+  perm_b (rel_order evs) (List.length ms) = true ->
+  Nat.eqb (npar evs + (if pre then 1 else 0)) 1 = true ->
+  exec_ev a ms pre evs = contract_ev a ms pre evs.
+Proof. exact exec_ev_meets_contract_ev. Qed.
+Print Assumptions C17_event_model_meets_contract_ev.
+
+(* hence an observation that agrees with the event model satisfies the closed-form contract *)
+Theorem C17_parent_cancel_judge_sound : forall a ms pre evs obs,
+  C17P_guard (KEv a ms pre evs obs) = true ->
+  pagrees (KEv a ms pre evs obs) = true -> C17P_ok (KEv a ms pre evs obs) = true.
+Proof. exact pjudge_sound. Qed.
+Print Assumptions C17_parent_cancel_judge_sound.
+
+(* the return step and the cancellation step spelled out on the world of the event model *)
+Theorem C17_return_and_cancel_step_closed_form : forall c0 ms (pre : bool) evs,
+  shape c0 (List.length ms) ->
+  perm_b (rel_order evs) (List.length ms) = true ->
+  (npar evs + (if pre then 1 else 0) = 1)%nat ->
+  let q := q_of c0 ms pre evs in
+  let W := t_w (run_par_t c0 ms pre evs) in
+  exists t, w_ret W = Some t /\
+    match flip (ret_step ms evs q) c0 (seq_at ms evs q) with
+    | Some t' => t = t'
+    | None => all_ret_step ms evs q = t
+    end /\
+    ((0 < List.length ms)%nat -> w_cancel W = Some (Nat.min q t)) /\
+    w_saw W = saw_at ms evs q.
+Proof.
+  intros c0 ms pre evs SH PB NP. cbv zeta. rewrite run_par_t_world.
+  destruct (par_time_closed_form c0 ms pre evs SH PB NP) as [t [RT [M KC]]].
+  exists t. repeat split; auto. apply par_saw_closed_form; auto.
+Qed.
+Print Assumptions C17_return_and_cancel_step_closed_form.
+
 (* once every member has been allowed to finish the call has returned — never RHang, never a panic,
    nothing left behind — whatever else happened (parent cancelled or not, at any point) *)
 Theorem C17_call_returns_under_events : forall a ms pre evs c0,
